@@ -533,7 +533,8 @@ func ruleSqlitexExecute(x *Exec, fr *Frame, st *State, ins ssa.Instruction, sig 
 }
 
 // sqlColumnsCheck: for every INSERT constant of the sqlite package the i-th column is written by the parameter of the same
-// name ($col), and every SELECT ... FROM <table> constant only names columns that the table's INSERT writes. Returns the
+// name ($col), and every SELECT ... FROM <table> constant only names columns that the table's INSERT writes and selects its
+// rows by `WHERE id = $id` or by `WHERE id IN $ids ORDER BY pos ASC`. Returns the
 // problems found (reported as failed obligations by the check driver).
 func sqlColumnsCheck(w *World) []string {
 	var out []string
@@ -611,6 +612,13 @@ func sqlColumnsCheck(w *World) []string {
 			t := strings.ToLower(m[2])
 			if cols[t] == nil {
 				continue
+			}
+			// the rows a fetch statement returns: the SQL rule reads `WHERE id = $id` as "the rows with that id" and
+			// `WHERE id IN $ids ORDER BY pos ASC` as "the rows of the id list in declared (position) order" - the text
+			// after the table name must be exactly one of the two, or the rule does not describe the statement
+			tail := strings.ToLower(strings.Join(strings.Fields(c[1][len(m[0]):]), " "))
+			if tail != "where id = $id" && tail != "where id in $ids order by pos asc" {
+				out = append(out, fmt.Sprintf("%s: rows are selected by %q, which is neither `WHERE id = $id` nor `WHERE id IN $ids ORDER BY pos ASC` (children are read back in declared order only when sorted by the position column)", c[0], tail))
 			}
 			for _, col := range split(m[1]) {
 				if strings.ContainsAny(col, "(* ") {
